@@ -6,6 +6,7 @@ import (
 	"hash/fnv"
 	"sort"
 	"strconv"
+	"strings"
 	"testing/synctest"
 	"time"
 
@@ -92,9 +93,13 @@ type World struct {
 	// HoldApp, when set, restricts prefix holds to goroutines it accepts; OnHold is told about a hold.
 	HoldApp func(g *simhook.G) bool
 	OnHold  func(g *simhook.G, site string, d time.Duration)
-	prio     map[string]int // PCT priorities
-	pctPts   map[uint64]bool
-	Stalls   int
+	// HoldNth: one-shot holds aimed at the n-th hook of a site class that a particular goroutine passes
+	// (see NthHold); Roles: goroutine id -> role, maintained by TrackRoles.
+	HoldNth []*NthHold
+	Roles   map[string]string
+	prio    map[string]int // PCT priorities
+	pctPts  map[uint64]bool
+	Stalls  int
 }
 
 // NewWorld installs the scheduler; must be called inside the bubble by the root goroutine.
@@ -369,6 +374,39 @@ func (w *World) pick(cands []*simhook.G, due []*Event) int {
 	return 0
 }
 
+// NthHold withholds a goroutine at the (Skip+1)-th hook whose site starts with Prefix that a goroutine
+// accepted by Filter passes after the hold was armed, for D of simulated time. Sweeping Skip over a
+// small range from the tape walks a long preemption through every step of a short code path (the
+// supervisor's step, a commit on the receive path) — windows a few instructions wide that random
+// preemption has to hit by starving one goroutine through dozens of hooks of another.
+type NthHold struct {
+	Prefix string
+	Filter func(g *simhook.G) bool
+	Skip   int
+	D      time.Duration
+	Label  string
+}
+
+// TrackRoles records, for every parked goroutine whose site starts with one of the given prefixes,
+// the role that goes with it (first match wins, a role once given is kept). Call it from a monitor.
+func (w *World) TrackRoles(byPrefix [][2]string) {
+	if w.Roles == nil {
+		w.Roles = map[string]string{}
+	}
+	for _, g := range w.S.Parked() {
+		if _, ok := w.Roles[g.ID]; ok {
+			continue
+		}
+		for _, pr := range byPrefix {
+			if strings.HasPrefix(g.Site, pr[0]) {
+				w.Roles[g.ID] = pr[1]
+
+				break
+			}
+		}
+	}
+}
+
 // policy implements simhook.Policy on top of the world's tape.
 type policy World
 
@@ -400,6 +438,22 @@ func (p *policy) Preempt(g *simhook.G, site string) bool {
 
 			return true
 		}
+	}
+	for i, nh := range w.HoldNth {
+		if len(site) < len(nh.Prefix) || site[:len(nh.Prefix)] != nh.Prefix || (nh.Filter != nil && !nh.Filter(g)) {
+			continue
+		}
+		if nh.Skip > 0 {
+			nh.Skip--
+
+			continue
+		}
+		w.HoldNth = append(w.HoldNth[:i:i], w.HoldNth[i+1:]...)
+		g.StallUntil = int64(w.Now() + nh.D)
+		w.Stalls++
+		w.Fault("hold-nth@" + nh.Label)
+
+		return true
 	}
 	if st.PCTDepth > 0 {
 		// PCT: at a change point the runner's priority drops below everything else
